@@ -1442,11 +1442,13 @@ HANGS = [0]
 
 
 def budget(body):
-    """seconds a decode may take: 64k octets decode in ~0.2 s on this machine; orders of magnitude above that per
-    octet, plus a floor for a loaded machine.  Once hangs are being found the floor shrinks, so that a decoder
-    that loops on a whole family of inputs costs minutes, not hours (every one is still reported)."""
+    """seconds one observation may take.  An observation decodes the body AND renders every route through four API
+    encoders, twice: about 10 s for the 65 000 routes of a 64k body on an idle core, several times that on a loaded
+    machine.  A decoder that loops is caught by any finite budget, so the budget is generous in the size (hanging
+    inputs are small).  Once hangs are being found the floor shrinks, so that a decoder that loops on a whole family
+    of inputs costs minutes, not hours (every one is still reported)."""
     floor = 5.0 if HANGS[0] < 3 else 1.5 if HANGS[0] < 20 else 0.5
-    return floor + len(body) / 2000.0
+    return floor + len(body) / 100.0
 
 
 def guarded(f, ty, body, *a):
@@ -1513,7 +1515,7 @@ def check(tier, seed):
         'every observation starts without the previous-UPDATE attribute cache (history dependence is C19)',
         'wall-clock linearity is measured (best of N on a shared machine), only the step count of the model is proved',
     ]
-    pc = common.standard_build(run, ['T5', 'T10', 'T12'])
+    pc = common.standard_build(run, ['T5', 'T6', 'T10', 'T12'])
     from translate import t12_parse_shape
 
     try:
